@@ -15,6 +15,9 @@ use serde_json::{json, Value};
 use std::sync::atomic::{AtomicU32, Ordering};
 use std::sync::Arc;
 
+/// number of gated steps in which not all calls ran concurrently (order only partially enforced)
+pub static DEGRADED: std::sync::atomic::AtomicU64 = std::sync::atomic::AtomicU64::new(0);
+
 /// A user-defined evaluator: evaluates back to front.
 pub struct Backwards;
 impl Evaluate for Backwards {
@@ -104,20 +107,20 @@ pub fn run_case(c: &Case) -> Result<(), (String, String)> {
                     *instr.ids.lock().unwrap() = (0..n).map(|i| fkey(&sol(i))).collect();
                     gate.set_active(true);
                     let mut ctl_err: Option<String> = None;
+                    let mut degraded = false;
+                    let finished = std::sync::atomic::AtomicBool::new(false);
                     let r = std::thread::scope(|s| {
                         let st_ref = &mut st;
                         let pool_ref = &pool;
-                        let h = s.spawn(move || pool_ref.install(|| exec(st_ref)));
-                        match gate.wait_arrived(n) {
-                            Ok(_) => {
-                                for id in order {
-                                    gate.release(*id);
-                                    if let Err(e) = gate.wait_done(*id) {
-                                        ctl_err = Some(e);
-                                        break;
-                                    }
-                                }
-                            }
+                        let fin = &finished;
+                        let exec = &exec;
+                        let h = s.spawn(move || {
+                            let r = pool_ref.install(|| exec(st_ref));
+                            fin.store(true, std::sync::atomic::Ordering::SeqCst);
+                            r
+                        });
+                        match gate.drive(order, n, &finished, std::time::Duration::from_millis(1000)) {
+                            Ok(deg) => degraded = deg,
                             Err(e) => ctl_err = Some(e),
                         }
                         gate.set_active(false);
@@ -125,6 +128,9 @@ pub fn run_case(c: &Case) -> Result<(), (String, String)> {
                     });
                     if let Some(e) = ctl_err {
                         return Err(("C06 machinery gate".to_string(), ctx(e)));
+                    }
+                    if degraded {
+                        DEGRADED.fetch_add(1, Ordering::SeqCst);
                     }
                     r
                 }
@@ -297,6 +303,10 @@ pub fn run_part_a(rep: &mut Report) {
         }
     }
     p.require(gated >= 6, "no gated completion orders were explored");
+    let deg = DEGRADED.load(Ordering::SeqCst);
+    if deg > 0 {
+        p.caps_hit.push(format!("{} gated steps did not run all objective calls concurrently: completion order only partially enforced there", deg));
+    }
     rep.push(p);
 }
 
